@@ -286,7 +286,7 @@ def _case(draw, pid, tier):
             max_obj, max_fam = 5, 4
             if pid == "C05":
                 algos = ["superdtl", "base_uspfs"]
-        elif pid in ("C02", "C05") and labelled and draw(st.integers(0, 5)) == 0:
+        elif pid in ("C02", "C05") and labelled and draw(st.integers(0, 3)) == 0:
             # swarm mode "wide syntenies": few nodes, five or six families - segment
             # distances over parent syntenies with holes wider than one position
             max_obj, max_sp, max_fam = 3, 2, 6
